@@ -413,10 +413,19 @@ class Mirror:
             return jnp.exp(E(nd[2])*jnp.log(E(nd[1])))
         if op == "vdot":
             return jnp.sum(jnp.conj(E(nd[1]))*E(nd[2]))
-        if op == "pack":
+        if op == "pack":          # items [key, child] or [key, child, negated]
             out = {}
-            for k, j in nd[1]:
-                out[k] = out[k] + E(j) if k in out else E(j)
+            for it in nd[1]:
+                k, v = it[0], E(it[1])
+                if len(it) > 2 and it[2]:
+                    v = -v
+                out[k] = out[k] + v if k in out else v
+            return out
+        if op == "mdsub":
+            a, b = E(nd[1]), E(nd[2])
+            out = dict(a)
+            for k, v in b.items():
+                out[k] = out[k] - v if k in out else -v
             return out
         if op == "mdadd":
             a, b = E(nd[1]), E(nd[2])
@@ -821,9 +830,15 @@ def build_nifty(I, prog, upto=None, vdoms=None):
             r = O(nd[1]).vdot(O(nd[2]))
         elif op == "pack":
             r = None
-            for k, j in nd[1]:
-                t = O(j).ducktape_left(k)
-                r = t if r is None else r + t
+            for it in nd[1]:
+                t = O(it[1]).ducktape_left(it[0])
+                ng = len(it) > 2 and it[2]
+                if r is None:
+                    r = -t if ng else t
+                else:
+                    r = r - t if ng else r + t
+        elif op == "mdsub":
+            r = O(nd[1]) - O(nd[2])
         elif op == "mdadd":
             r = O(nd[1]) + O(nd[2])
         elif op == "mdmul":
@@ -974,19 +989,26 @@ def ptw_valid(f, v, args=()):
     return True
 
 
+# node kinds that build nifty LinearOperators when all their children are linear
+LINEAR_KINDS = ("var", "scale", "neg", "mulc", "invdiag", "invscale", "matrix", "reshape",
+                "leinsum", "sum", "integ", "conj", "real", "divn", "add", "sub", "get", "pack",
+                "mdadd", "mdsub")
+
+
 class Gen:
     """random SSA program; value guided unless cfg['total']"""
 
     def __init__(self, rng, md=True, nkeys=(2, 3), cplx=False, steps=(3, 8), total=False,
                  maxdepth=6, energy=0.0, same_dt=False, p_subst=0.08, p_share=0.3,
                  p_clone=0.0, leafops=False, jax=True, mdweight=1,
-                 linstart=0.0, minbin=0):
+                 linstart=0.0, minbin=0, force_varcov=False):
         self.rng = rng
         self.md, self.cplx, self.total = md, cplx, total
         self.maxdepth, self.energy = maxdepth, energy
         self.pr_subst, self.pr_share = p_subst, p_share
         self.leafops, self.jax, self.mdweight = leafops, jax, int(mdweight)
         self.linstart, self.minbin = linstart, minbin
+        self.force_varcov = bool(force_varcov and md and not total)
         self.nodes, self.info = [], []
         self.objs = []
         self.inputs, self.virtual, self.env = {}, {}, {}
@@ -1000,6 +1022,8 @@ class Gen:
                 else DT_MENU[int(rng.integers(0, len(DT_MENU)))]
             c = bool(cplx and rng.integers(0, 4) > 0)
             pos = bool((not c) and (not total) and rng.integers(0, 4) == 0)
+            if self.force_varcov and j == 1:      # a positive key on the domain of key 0
+                ds, c, pos = self.inputs["k0"][0], False, True
             self.inputs[key] = [ds, c, pos]
             self.env[key] = self.draw_point(ds, c, pos, rng)
         self.nsteps = int(rng.integers(steps[0], steps[1] + 1))
@@ -1057,7 +1081,8 @@ class Gen:
         for j in children:
             self.info[j]["used"] += 1
         self.info.append(dict(t=typ, free=free, depth=depth, val=val, used=0, mag=mag,
-                              nl=int(nonlinear), bin=int(binary), lin=not nonlinear and all(
+                              nl=int(nonlinear), bin=int(binary),
+                              lin=nd[0] in LINEAR_KINDS and all(
                                   self.info[j].get("lin", False) for j in children)))
         return i
 
@@ -1098,7 +1123,8 @@ class Gen:
         rng = self.rng
         kinds = ["ptw"]*5 + ["affine"]*3 + ["binary"]*5 + ["reduce", "struct", "leaf", "cplxop",
                                                            "subst", "wchain"] \
-            + ["pack", "mdop"]*self.mdweight + (["app"]*6 if self.total else [])
+            + ["pack", "mdop"]*self.mdweight + (["app"]*6 if self.total else []) \
+            + (["linpack"]*self.mdweight if self.md and not self.total else [])
         for _ in range(20):
             k = kinds[int(rng.integers(0, len(kinds)))]
             r = getattr(self, "p_" + k)()
@@ -1521,6 +1547,76 @@ class Gen:
         items = [items[j] for j in order]
         return self.add(["pack", items], ("MD", typ), [j for _, j in items], binary=True)
 
+    def p_linpack(self):
+        """difference of LinearOperators with a MultiDomain target (NIFTy SumOperator with
+        negated summands): +-L1.ducktape_left(k1) +- L2.ducktape_left(k2) [+- L3...], summands on
+        different / overlapping input keys and target keys; optionally two such sums subtracted"""
+        rng = self.rng
+
+        def linear_node():
+            c = self.dtnodes(lambda inf: inf.get("lin") and len(inf["t"][1]) >= 1)
+            a = self.choose(c)
+            if a is None or rng.integers(0, 3) == 0:
+                lv = [i for i, nd in enumerate(self.nodes) if nd[0] == "var"
+                      and nd[1] in self.inputs and i not in self.banned]
+                if not lv:
+                    return a
+                x = lv[int(rng.integers(0, len(lv)))]
+                t = self.info[x]["t"]
+                u = int(rng.integers(0, 4))
+                sd = int(rng.integers(0, 10**6))
+                if u == 0:
+                    return x
+                if u == 1:
+                    return self.add(["scale", x, float(np.round(rng.uniform(0.4, 2.5), 2))], t,
+                                    [x])
+                if u == 2:
+                    return self.add(["mulc", x, sd, False], t, [x])
+                return self.nondiag(x) or x
+            return a
+
+        def one_pack():
+            n = int(rng.integers(2, 4))
+            items, typ = [], {}
+            for _ in range(n):
+                a = linear_node()
+                if a is None:
+                    return None
+                ds = self.info[a]["t"][1]
+                free = [k for k in ("x", "y", "z") if k not in typ or typ[k][0] == ds]
+                pref = [k for k in free if k in typ] if rng.integers(0, 3) == 0 else \
+                    [k for k in free if k not in typ]
+                k = (pref or free)[int(rng.integers(0, len(pref or free)))]
+                typ[k] = (ds, 0)
+                items.append([k, a, int(rng.integers(0, 2))])
+            if not any(it[2] for it in items[1:]):
+                items[-1][2] = 1              # at least one negated later summand
+            if len(typ) < 2:
+                return None
+            return self.add(["pack", items], ("MD", typ), [it[1] for it in items], binary=True)
+        p = one_pack()
+        if p is None:
+            return None
+        if rng.integers(0, 3) == 0:           # (sum) - (sum): nested negation flags
+            q = one_pack()
+            if q is not None:
+                tp, tq = self.info[p]["t"][1], self.info[q]["t"][1]
+                if all(k not in tp or tp[k][0] == v[0] for k, v in tq.items()):
+                    typ = dict(tp)
+                    typ.update(tq)
+                    r = self.add(["mdsub", p, q], ("MD", typ), [p, q], binary=True)
+                    p = r if r is not None else p
+        u = int(rng.integers(0, 4))
+        tp = self.info[p]["t"][1]
+        if u == 0:                            # nonlinearity on top: the sum is the innermost op
+            f = ["exp", "tanh", "sin", "sigmoid"][int(rng.integers(0, 4))]
+            if all(ptw_valid(f, v) for v in _allvals(self.info[p]["val"])):
+                return self.add(["mdptw", f, p], self.info[p]["t"], [p], nonlinear=True) or p
+        if u == 1:                            # linear chain on top (ChainOperator)
+            key = list(tp)[int(rng.integers(0, len(tp)))]
+            return self.add(["get", p, key], t_dt(tp[key][0], 0), [p]) or p
+        return p
+
     def mdnodes(self, pred=lambda inf: True):
         return self.pool(lambda inf: inf["t"][0] == "MD" and pred(inf))
 
@@ -1530,7 +1626,7 @@ class Gen:
         if a is None:
             return None
         ta = self.info[a]["t"]
-        k = ["get", "get", "mdadd", "mdmul", "mdptw"][int(rng.integers(0, 5))]
+        k = ["get", "get", "mdadd", "mdsub", "mdmul", "mdmul", "mdptw"][int(rng.integers(0, 7))]
         if k == "get":
             key = list(ta[1])[int(rng.integers(0, len(ta[1])))]
             return self.add(["get", a, key], t_dt(ta[1][key][0], 0), [a])
@@ -1545,7 +1641,7 @@ class Gen:
             if b is None:
                 return None
             return self.add(["mdmul", a, b], ta, [a, b], nonlinear=True, binary=True)
-        if k == "mdadd":
+        if k in ("mdadd", "mdsub"):
             def compat(inf):
                 return all(q not in ta[1] or ta[1][q][0] == w[0] for q, w in inf["t"][1].items())
             b = self.choose(self.mdnodes(compat))
@@ -1553,7 +1649,7 @@ class Gen:
                 return None
             typ = dict(ta[1])
             typ.update(self.info[b]["t"][1])
-            return self.add(["mdadd", a, b], ("MD", typ), [a, b], binary=True)
+            return self.add([k, a, b], ("MD", typ), [a, b], binary=True)
         return None
 
     def p_subst(self):
@@ -1682,7 +1778,7 @@ class Gen:
         keys = list(self.inputs)
         pairs = [(r, i) for r in keys for i in keys if r != i and self.inputs[i][2]
                  and self.inputs[r][0] == self.inputs[i][0]]
-        if pairs and rng.integers(0, 2):
+        if pairs and (self.force_varcov or rng.integers(0, 2)):
             kr, ki = pairs[int(rng.integers(0, len(pairs)))]
             typ = ("MD", {kr: (self.inputs[kr][0], self.inputs[kr][1]),
                           ki: (self.inputs[ki][0], 0)})
@@ -1765,7 +1861,7 @@ class Gen:
         root = self.join()
         if root is None:
             return None
-        if self.energy and rng.random() < self.energy:
+        if self.energy and (self.force_varcov or rng.random() < self.energy):
             root = self.make_energy(root) or root
         return self.finish(root)
 
@@ -1831,7 +1927,7 @@ class Gen:
         t = self.info[root]["t"]
         r = None
         u = rng.integers(0, 10)
-        if u < 2:
+        if u < 2 or self.force_varcov:
             r = self.make_varcov()
         elif u < 3 and self.leafops:
             r = self.make_mdleaf()
@@ -1907,10 +2003,10 @@ class Gen:
             return []
         if op in ("ptw", "mdptw", "app"):
             return [nd[2]]
-        if op in ("add", "sub", "mul", "div", "pow", "vdot", "mdadd", "mdmul", "lhsum"):
+        if op in ("add", "sub", "mul", "div", "pow", "vdot", "mdadd", "mdsub", "mdmul", "lhsum"):
             return [nd[1], nd[2]]
         if op == "pack":
-            return [j for _, j in nd[1]]
+            return [it[1] for it in nd[1]]
         if op == "subst":
             return [nd[1], nd[3]]
         if op == "lh":
@@ -1925,10 +2021,10 @@ class Gen:
             return nd
         if op in ("ptw", "mdptw", "lh", "app"):
             nd[2] = ren[nd[2]]
-        elif op in ("add", "sub", "mul", "div", "pow", "vdot", "mdadd", "mdmul", "lhsum"):
+        elif op in ("add", "sub", "mul", "div", "pow", "vdot", "mdadd", "mdsub", "mdmul", "lhsum"):
             nd[1], nd[2] = ren[nd[1]], ren[nd[2]]
         elif op == "pack":
-            nd[1] = [[k, ren[j]] for k, j in nd[1]]
+            nd[1] = [[it[0], ren[it[1]]] + list(it[2:]) for it in nd[1]]
         elif op == "subst":
             nd[1], nd[3] = ren[nd[1]], ren[nd[3]]
         else:
